@@ -42,6 +42,7 @@ def check_prog(ctx, r, prog):
                 ctx.violate("part-schema", f"{pn}: {h['hid']} is declared to return {prog['types'][h['resp_ti']].rust} but the table carries schema `{table[h['name']].get('title')}`",
                             dict(detail, handler=h["hid"], expected=exp, observed=table[h["name"]]))
             union[h["name"]] = exp
+            ctx.count("queries_with_explicit_resp" if h.get("resp_explicit") else "queries_with_inferred_resp")
             sibs = [h2 for h2 in qs if h2 is not h and h2["resp_ti"] != h["resp_ti"]]
             if sibs:
                 ctx.nontrivial([pn, h["hid"], prog["types"][h["resp_ti"]].rust])
@@ -101,7 +102,8 @@ def run(ctx):
     ctx.rule = ("for every part and the contract: QueryResponses::response_schemas_impl() keys vs the query handlers of the spec, each schema vs "
                 "schema_for!(declared response type); contract table vs union of parts; schema_for!(Contract*Msg).anyOf vs the parts' own schemas; "
                 "non-trivial+distinct = distinct (program, query) whose part has a sibling query with a different response type, plus multi-part unions and any-ofs")
-    ctx.assumptions = ["response types limited to path types of the universe (a tuple return type makes the macro panic: DESIGN limits)"]
+    ctx.assumptions = ["response types limited to path types of the universe (a tuple return type makes the macro panic: DESIGN limits)",
+                       "explicit resp= is generated with an aliased result type (svmon::QResult) the macro cannot look into"]
     fam = ctx.family("general")
 
     def per_bin(b, progs, r):
